@@ -1566,8 +1566,14 @@ package main
 //@   assert("[C12] the-number-written-into-the-source-is-the-magic-value-in-decimal", v == uint64(magicValue) && b == 10)
 //@ end
 
+//@ hookset entrywalk
+//@ hook before go/ast.Inspect(n, f)
+//@   assert("[C12] decryption-is-injected-into-the-function-named-entry", n == entryFunc && entryFunc != nil)
+//@ end
+
 //@ func updateEntryOffset
 //@   property C12
+//@   hooks entrywalk
 //@   skip safety call-requires
 //@   may_panic when true
 //@   assigns *
